@@ -100,6 +100,17 @@ func main() {
 				rep.Errors = append(rep.Errors, "stale-contract: "+c.Key+": "+c.Stale+" ("+c.Header+")")
 			}
 		}
+		for _, wi := range eng.writerIssues {
+			sel := len(want) == 0 || len(wi.props) == 0
+			for _, p := range wi.props {
+				if want[p] {
+					sel = true
+				}
+			}
+			if sel {
+				rep.Errors = append(rep.Errors, "undeclared-writer: "+wi.msg)
+			}
+		}
 		for _, k := range eng.contractOrder {
 			c := eng.contracts[k]
 			if c.IsIface || c.Trusted {
